@@ -327,7 +327,7 @@ def work(job):
                     # or popped name are not hard-asserted)
                     carrying = {cc.norm(b) for b in list(top.values()) + list(nest.values())}
                     impl_bg = [u for u in unnamed if cc.norm(u) not in carrying]
-                missing = [u for u in unnamed if not cc.equivalent_to_some(logic, idecls, u, impl_bg)] if (not full and impl_bg is not None) else []
+                missing = [u for u in unnamed if not cc.represented(logic, idecls, u, impl_bg)] if (not full and impl_bg is not None) else []
                 # every unnamed assertion the implementation left out of its background must be one whose term carries a live
                 # name (top-level or on a subterm): only that is the known defect
                 carriers = list(top.values()) + list(nest.values())
